@@ -155,6 +155,12 @@ func c08Check(env *core.Env, cc core.Case) core.Verdict {
 	v := core.Verdict{Status: core.Held, Features: []string{"cmd:" + c.Cmd, "leak:" + c.Leak, fmt.Sprintf("files:%d", len(targets)), fmt.Sprintf("offset-spelling:%d", c.Pad), fmt.Sprintf("updated-first:%v", c.Fresh > 0)}, Counts: map[string]int{}}
 	mk := func(name string) (string, error) {
 		root := filepath.Join(sandbox, name, "crs")
+		switch (len(targets) + c.Pad + len(c.Cmd)) % 5 {
+		case 1:
+			root = filepath.Join(sandbox, name, "src", "include", "crs") // directory names above the root are no input
+		case 3:
+			root = filepath.Join(sandbox, name, "exclude", "regex-assembly", "crs")
+		}
 		_ = os.MkdirAll(filepath.Join(root, "regex-assembly", "include"), 0o755)
 		_ = os.MkdirAll(filepath.Join(root, "regex-assembly", "exclude"), 0o755)
 		if err := tree.Write(root); err != nil {
